@@ -216,6 +216,9 @@ def run(v, tier, seed, g):
             ({"scalar_type": "float32", "table_rtol": 1e-3}, {"scalar_type": "float64", "sum_factorization": True}, [], {"scalar_type": "float64", "table_rtol": 1e-3, "sum_factorization": True}),
             ({"scalar_type": "float64"}, {"scalar_type": "float64", "table_atol": 1e-7}, ["--scalar_type", "float32"], {"scalar_type": "float32", "table_atol": 1e-7, "sum_factorization": False}),
             ({}, {"sum_factorization": False}, ["--sum_factorization"], {"sum_factorization": True}),
+            # the command line restates a built-in default against a file that changed it
+            ({"scalar_type": "float32", "table_rtol": 1e-3}, {"epsilon": 1e-10}, ["--scalar_type", "float64", "--table_rtol", "1e-06", "--epsilon", "1e-14"],
+             {"scalar_type": "float64", "table_rtol": 1e-6, "epsilon": 1e-14}),
             ({"epsilon": 1e-12, "verbosity": 40}, {"verbosity": 50}, ["--table_rtol", "1e-4"], {"epsilon": 1e-12, "verbosity": 50, "table_rtol": 1e-4}),
         ]
         for ui, (uj, pj, args, exp) in enumerate(trials):
